@@ -16,12 +16,16 @@ BVal(c) == [n \in DOMAIN Bind(c) |-> c.binds[Bind(c)[n]][2]]
 Judge(c) ==
     IF c.kind = "template" THEN
         LET want == Subst(c.tmpl, BVal(c)) IN
-        IF IsErr(want) THEN (IF c.out[1] = "err" THEN <<"ok", "err">> ELSE <<"bad", "splice-of-non-list-accepted">>)
+        IF IsErr(want) THEN (IF c.out[1] = "err" THEN <<"ok", "err">> ELSE <<"bad", "template-without-value-accepted">>)
         ELSE IF c.out = <<"val", want>> THEN <<"ok", "val">>
         ELSE <<"bad", "substitution">>
-    ELSE (* macro: expansion = Subst over the argument FORMS; call = hand-written expansion; caller untouched *)
+    ELSE (* macro: expansion = Subst over the argument FORMS; call = hand-written expansion; caller untouched.
+            A definition that is refused defines no macro: nothing is claimed about it (C15.py insists that the
+            ordinary names are accepted); a definition that is accepted, whatever its name, is a macro that
+            calls reach.  A body that has no value (an unquoted expression without one) cannot expand. *)
         LET want == Subst(c.tmpl, BVal(c)) IN
-        IF IsErr(want) THEN <<"skip", "err">>
+        IF c.defout[1] # "val" THEN <<"ok", IF IsErr(want) THEN "err" ELSE "refused">>
+        ELSE IF IsErr(want) THEN (IF c.expansion[1] = "err" THEN <<"ok", "err">> ELSE <<"bad", "body-without-value-expanded">>)
         ELSE IF c.expansion # <<"val", want>> THEN <<"bad", "expansion">>
         ELSE IF c.callout # c.handout \/ c.callfx # c.handfx THEN <<"bad", "call-differs-from-hand-expansion">>
         ELSE IF c.depthsBefore # c.depthsAfter THEN <<"bad", "caller-depths">>
